@@ -6,7 +6,9 @@ EXTENDS LR
 
 Params == JsonDeserialize(IOEnv.LR_PARAMS)     \* {"start": token, "alphabet": [{t,n,s}...], "maxlen": n}
 Alphabet == {Params.alphabet[i] : i \in 1..Len(Params.alphabet)}
-MaxLen == Params.maxlen
+(* optional "prefix": tokens every explored string begins with (they do not count towards maxlen) - for forms that sit deep in a production, e.g. `control: A[] ( ... )` *)
+Prefix == IF "prefix" \in DOMAIN Params THEN Params.prefix ELSE <<>>
+MaxLen == Params.maxlen + Len(Prefix)
 
 VARIABLES cfg, hist
 vars == <<cfg, hist>>
@@ -15,8 +17,9 @@ Init == cfg = InitCfg(Params.start, <<>>) /\ hist = <<>>
 
 ReadTok == /\ NeedsLookahead(cfg)
            /\ \/ /\ Len(hist) < MaxLen
-                 /\ \E t \in Alphabet : cfg' = [cfg EXCEPT !.la = t] /\ hist' = Append(hist, t)
-              \/ /\ (IF hist = <<>> THEN TRUE ELSE hist[Len(hist)].t # "$end")
+                 /\ \E t \in (IF Len(hist) < Len(Prefix) THEN {Prefix[Len(hist) + 1]} ELSE Alphabet) : cfg' = [cfg EXCEPT !.la = t] /\ hist' = Append(hist, t)
+              \/ /\ Len(hist) >= Len(Prefix)
+                 /\ (IF hist = <<>> THEN TRUE ELSE hist[Len(hist)].t # "$end")
                  /\ cfg' = [cfg EXCEPT !.la = EndTok] /\ hist' = Append(hist, EndTok)
 Step == /\ cfg.mode = "run" /\ ~NeedsLookahead(cfg)
         /\ cfg' = LRStep(cfg) /\ UNCHANGED hist
